@@ -8,8 +8,9 @@
 (* Searchlight.tla, which TLC re-evaluates on the logged input:            *)
 (*   nb  : the returned coordinates are exactly Neighbours(centre,r,shape),*)
 (*         each once;                                                      *)
-(*   vol : the returned centres are GoodCentres(shape, mask, r, t) (linear *)
-(*         indices, ascending) and neighbour list i is exactly the         *)
+(*   vol : the returned centres are, as a set and each once, the linear    *)
+(*         indices GoodCentres(shape, mask, r, t) (the property does not   *)
+(*         fix their order) and neighbour list i is exactly the            *)
 (*         searchlight of centre i, each voxel once.                       *)
 (* One behaviour per trace id; [accept |-> tid] is printed after the last  *)
 (* event, [reject |-> tid, l |-> index, ...] at the first unexplained one. *)
@@ -24,7 +25,7 @@ ExpCentres(e) == GoodCentres(e.shape, ToSet(e.mask), e.rad, e.thr)
 BadLists(e) == {i \in 1..Len(e.centres) : ~(ToSet(e.neigh[i]) = ExpNeigh(e, e.centres[i]) /\ NoDup(e.neigh[i]))}
 Explains(e) ==
   IF e.op = "nb" THEN ToSet(e.out) = Neighbours(e.centre, e.rad, e.shape) /\ NoDup(e.out)
-  ELSE /\ e.centres = ExpCentres(e)
+  ELSE /\ ToSet(e.centres) = ToSet(ExpCentres(e)) /\ NoDup(e.centres)
        /\ Len(e.neigh) = Len(e.centres)
        /\ BadLists(e) = {}
 Diag(e) ==
@@ -32,7 +33,7 @@ Diag(e) ==
                        expected |-> SetToSortSeq(Neighbours(e.centre, e.rad, e.shape),
                                                  LAMBDA a, b : Ravel(e.shape, a) < Ravel(e.shape, b))]
   ELSE [op |-> "vol", rad |-> e.rad, thr |-> e.thr, shape |-> e.shape,
-        centres_ok |-> e.centres = ExpCentres(e), expected_centres |-> ExpCentres(e),
+        centres_ok |-> (ToSet(e.centres) = ToSet(ExpCentres(e)) /\ NoDup(e.centres)), expected_centres |-> ExpCentres(e),
         bad_lists |-> IF Len(e.neigh) = Len(e.centres) THEN SortedSeq(BadLists(e)) ELSE <<0>>]
 
 TInit == /\ tid \in 1..Len(Traces) /\ l = 1 /\ geo = Off /\ sch = Off
